@@ -60,7 +60,8 @@ def fn_part(mod, tier, rng, rep, replay, thms, tlog, failing, rc, build_log):
     for (i, oo), v in zip(oracle_ix, overd):
         # keep the first failing verdict per case, tagged with the oracle that produced it
         if v.startswith("0"):
-            verdict.setdefault(i, "0 %d %s" % (oo, v[2:]))
+            if not verdict.get(i, "").startswith("0"):
+                verdict[i] = "0 %d %s" % (oo, v[2:])
         elif i not in verdict:
             verdict[i] = v
     if panic_bad:
